@@ -21,23 +21,33 @@
 (*   batch       h <  now - W   <=> age >= W + 1                           *)
 (*   bridge call h <= now - W   <=> age >= W      (one block earlier)      *)
 (*   pruning     now - W >  h   <=> age >= W + 1                           *)
-(* Oracle powers are whole power units (DelegateAmount / 10^20); an oracle  *)
-(* set records its members' normalised powers, kept here at 20 bits:       *)
-(*   np[o] = floor(floor(p_o * (2^32-1) / total) / 4096)                    *)
-(*         = (p_o * 2^20 - 1) div total          (TLC integers are 32 bit)  *)
+(* Stakes are counted in STAKE UNITS, Unit of which make one power unit    *)
+(* (DelegateAmount = stake * 10^20 / Unit); an oracle's power is the whole *)
+(* number of power units of its stake (stake div Unit: GetPower), so with  *)
+(* Unit > 1 and a delegate threshold below Unit an oracle may be bonded and*)
+(* online with power 0.  The delegate threshold (params.DelegateThreshold, *)
+(* in stake units) is state: governance may change it (SetThreshold).  An  *)
+(* oracle set records its members (the online oracles with power > 0) and  *)
+(* their normalised powers, kept here at 20 bits:                          *)
+(*   np[o] = floor(floor(p_o * (2^32-1) / total) / 4096)                   *)
+(*         = (p_o * 2^20 - 1) div total          (TLC integers are 32 bit) *)
 (* LastSlashedBatchBlock (a height) is represented by the nonce of the     *)
 (* batch created at that height (at most one batch per block).             *)
 (*                                                                         *)
 (* Every action is TOTAL (res "ok"/"rej").  Tick has no "rej" outcome:     *)
 (* block processing cannot fail in the design.  Where the code contradicts *)
-(* that, the model keeps the CORRECT behaviour and the deviation shows.     *)
+(* that, the model keeps the CORRECT behaviour and the deviation shows.    *)
 (***************************************************************************)
 EXTENDS Integers, Sequences, FiniteSets, TLC, Json
 
 CONSTANTS Oracle,        \* set of strings
-          Stake,         \* [Oracle -> Nat] power an oracle bonds with
-          AddSizes,      \* power units an online oracle may add (MsgAddDelegate)
+          Unit,          \* stake units per power unit (>= 1)
+          Stake,         \* [Oracle -> Nat] stake units an oracle bonds with
+          AddSizes,      \* stake units an online oracle may add (MsgAddDelegate)
           MaxAdds,
+          Threshold0,    \* params.DelegateThreshold in the initial state (stake units, > 0)
+          Thresholds,    \* values governance may set it to (MsgUpdateParams)
+          Multiple,      \* params.DelegateMultiple: a stake is at most threshold * Multiple
           W,             \* signed window (params.SignedWindow), >= 2
           Kinds,         \* subset of {"batch","call"}: which objects the environment creates
           MaxSets, MaxBatch, MaxCall,
@@ -48,20 +58,21 @@ CONSTANTS Oracle,        \* set of strings
           MaxProps,
           DepositBlocks, VotingBlocks, ExpBlocks   \* periods in blocks (ExpBlocks < VotingBlocks)
 
-VARIABLES reg, online, approved, power, totalPower, adds,
+VARIABLES reg, online, approved, stake, power, totalPower, adds, threshold,
           sets, latest, slashedSet, lastObsSet,
           batches, slashedBatch,
           calls, slashedCall,
           props,
           op   \* operation just attempted: [name, o, k, n, res]
 
-svars == <<reg, online, approved, power, totalPower, adds, sets, latest, slashedSet, lastObsSet,
+svars == <<reg, online, approved, stake, power, totalPower, adds, threshold, sets, latest, slashedSet, lastObsSet,
            batches, slashedBatch, calls, slashedCall, props>>
 vars  == <<svars, op>>
 
 None == "none"
 
-Abs == [reg |-> reg, online |-> online, approved |-> approved, power |-> power, totalPower |-> totalPower,
+Abs == [reg |-> reg, online |-> online, approved |-> approved, stake |-> stake, power |-> power, totalPower |-> totalPower,
+        threshold |-> threshold,
         sets |-> sets, latest |-> latest, slashedSet |-> slashedSet, lastObsSet |-> lastObsSet,
         batches |-> batches, slashedBatch |-> slashedBatch, calls |-> calls, slashedCall |-> slashedCall,
         props |-> props]
@@ -78,7 +89,8 @@ All0 == [o \in Oracle |-> 0]
 Idx(s) == 1..Len(s)
 
 Init ==
-  /\ reg = AllF /\ online = AllF /\ approved = [o \in Oracle |-> TRUE] /\ power = All0 /\ totalPower = 0 /\ adds = 0
+  /\ reg = AllF /\ online = AllF /\ approved = [o \in Oracle |-> TRUE] /\ stake = All0 /\ power = All0 /\ totalPower = 0 /\ adds = 0
+  /\ threshold = Threshold0
   /\ sets = <<>> /\ latest = 0 /\ slashedSet = 0 /\ lastObsSet = 0
   /\ batches = <<>> /\ slashedBatch = 0 /\ calls = <<>> /\ slashedCall = 0
   /\ props = <<>>
@@ -91,17 +103,18 @@ Rej(o) == /\ op' = [o EXCEPT !.res = "rej"] /\ UNCHANGED svars
 (* bond made now: the new oracle is not exempt for them                    *)
 EligNow(s, o) == [n \in Idx(s) |-> IF s[n].age = 0 THEN [s[n] EXCEPT !.elig[o] = TRUE] ELSE s[n]]
 
-(* MsgBondedOracle *)
+(* MsgBondedOracle: the stake must lie between the delegate threshold and threshold * DelegateMultiple *)
 Bond(o) ==
   LET this == Op("Bond", o, None, 0, "ok")
-      okk  == approved[o] /\ ~reg[o]
+      okk  == approved[o] /\ ~reg[o] /\ Stake[o] >= threshold /\ Stake[o] <= threshold * Multiple
   IN IF ~okk THEN Rej(this) ELSE
      /\ reg' = [reg EXCEPT ![o] = TRUE] /\ online' = [online EXCEPT ![o] = TRUE]
-     /\ power' = [power EXCEPT ![o] = Stake[o]]
+     /\ stake' = [stake EXCEPT ![o] = Stake[o]]
+     /\ power' = [power EXCEPT ![o] = Stake[o] \div Unit]
      /\ totalPower' = OnlineSum(online', reg', power')
      /\ sets' = EligNow(sets, o) /\ batches' = EligNow(batches, o) /\ calls' = EligNow(calls, o)
      /\ op' = this
-     /\ UNCHANGED <<approved, adds, latest, slashedSet, lastObsSet, slashedBatch, slashedCall, props>>
+     /\ UNCHANGED <<approved, adds, threshold, latest, slashedSet, lastObsSet, slashedBatch, slashedCall, props>>
 
 (* MsgUpdateChainOracles(approved \ {o}): refused when the online power removed is > 0 and     *)
 (* >= 30% of the online power; a removed registered oracle goes offline (not slashed); the      *)
@@ -115,19 +128,30 @@ GovRemove(o) ==
      /\ approved' = [approved EXCEPT ![o] = FALSE]
      /\ online' = [online EXCEPT ![o] = FALSE]
      /\ op' = this
-     /\ UNCHANGED <<reg, power, totalPower, adds, sets, latest, slashedSet, lastObsSet, batches, slashedBatch, calls, slashedCall, props>>
+     /\ UNCHANGED <<reg, stake, power, totalPower, adds, threshold, sets, latest, slashedSet, lastObsSet, batches, slashedBatch, calls, slashedCall, props>>
 
-(* MsgAddDelegate of `a` power units by an approved, registered oracle.  An oracle that was slashed must  *)
+(* MsgAddDelegate of `a` stake units by an approved, registered oracle.  An oracle that was slashed must  *)
 (* first pay its penalty (80% of its stake: more than any amount used here), so only ONLINE oracles get *)
-(* through; the recorded total power is refreshed.                                                       *)
+(* through; the new stake must lie between the threshold and threshold * DelegateMultiple; the recorded   *)
+(* total power is refreshed.                                                                              *)
 AddStake(o, a) ==
   LET this == Op("AddStake", o, None, a, "ok")
-      okk  == approved[o] /\ reg[o] /\ online[o]
+      okk  == approved[o] /\ reg[o] /\ online[o] /\ stake[o] + a >= threshold /\ stake[o] + a <= threshold * Multiple
   IN IF ~okk THEN Rej(this) ELSE
-     /\ power' = [power EXCEPT ![o] = @ + a]
+     /\ stake' = [stake EXCEPT ![o] = @ + a]
+     /\ power' = [power EXCEPT ![o] = (stake[o] + a) \div Unit]
      /\ totalPower' = OnlineSum(online, reg, power')
      /\ adds' = adds + 1 /\ op' = this
-     /\ UNCHANGED <<reg, online, approved, sets, latest, slashedSet, lastObsSet, batches, slashedBatch, calls, slashedCall, props>>
+     /\ UNCHANGED <<reg, online, approved, threshold, sets, latest, slashedSet, lastObsSet, batches, slashedBatch, calls, slashedCall, props>>
+
+(* crosschain MsgUpdateParams by the governance authority changing DelegateThreshold to t stake units  *)
+(* (Params.ValidateBasic only asks for a positive amount); stakes already bonded are not looked at     *)
+SetThreshold(t) ==
+  LET this == Op("SetThreshold", None, None, t, "ok")
+      okk  == t > 0
+  IN IF ~okk THEN Rej(this) ELSE
+     /\ threshold' = t /\ op' = this
+     /\ UNCHANGED <<reg, online, approved, stake, power, totalPower, adds, sets, latest, slashedSet, lastObsSet, batches, slashedBatch, calls, slashedCall, props>>
 
 NewObj == [age |-> 0, conf |-> AllF, elig |-> reg]
 
@@ -137,13 +161,13 @@ CreateBatch ==
       okk  == \A n \in Idx(batches) : batches[n].age # 0
   IN IF ~okk THEN Rej(this) ELSE
      /\ batches' = Append(batches, NewObj) /\ op' = this
-     /\ UNCHANGED <<reg, online, approved, power, totalPower, adds, sets, latest, slashedSet, lastObsSet, slashedBatch, calls, slashedCall, props>>
+     /\ UNCHANGED <<reg, online, approved, stake, power, totalPower, adds, threshold, sets, latest, slashedSet, lastObsSet, slashedBatch, calls, slashedCall, props>>
 
 (* MsgBridgeCall *)
 CreateCall ==
   LET this == Op("CreateCall", None, None, 0, "ok")
   IN /\ calls' = Append(calls, NewObj) /\ op' = this
-     /\ UNCHANGED <<reg, online, approved, power, totalPower, adds, sets, latest, slashedSet, lastObsSet, batches, slashedBatch, slashedCall, props>>
+     /\ UNCHANGED <<reg, online, approved, stake, power, totalPower, adds, threshold, sets, latest, slashedSet, lastObsSet, batches, slashedBatch, slashedCall, props>>
 
 (* MsgOracleSetConfirm / MsgConfirmBatch / MsgBridgeCallConfirm signed by o's external key:     *)
 (* any REGISTERED oracle (online or not), object in store, not yet confirmed by o.              *)
@@ -156,7 +180,7 @@ Confirm(o, k, n) ==
      /\ batches' = IF k = "batch" THEN [batches EXCEPT ![n].conf[o] = TRUE] ELSE batches
      /\ calls'   = IF k = "call"  THEN [calls   EXCEPT ![n].conf[o] = TRUE] ELSE calls
      /\ op' = this
-     /\ UNCHANGED <<reg, online, approved, power, totalPower, adds, latest, slashedSet, lastObsSet, slashedBatch, slashedCall, props>>
+     /\ UNCHANGED <<reg, online, approved, stake, power, totalPower, adds, threshold, latest, slashedSet, lastObsSet, slashedBatch, slashedCall, props>>
 
 (* an observed MsgOracleSetUpdatedClaim for oracle set n (which must still be in the store) *)
 ObserveSet(n) ==
@@ -164,7 +188,7 @@ ObserveSet(n) ==
       okk  == n \in Idx(sets) /\ sets[n].ex
   IN IF ~okk THEN Rej(this) ELSE
      /\ lastObsSet' = n /\ op' = this
-     /\ UNCHANGED <<reg, online, approved, power, totalPower, adds, sets, latest, slashedSet, batches, slashedBatch, calls, slashedCall, props>>
+     /\ UNCHANGED <<reg, online, approved, stake, power, totalPower, adds, threshold, sets, latest, slashedSet, batches, slashedBatch, calls, slashedCall, props>>
 
 (* MsgSubmitProposal followed by the votes of the two validators v0 v1 (v0 also carries the oracles'     *)
 (* delegations, so v0 >= v1; quorum is 60% of the bonded stake, threshold 50%, veto 1/3).  Kinds:          *)
@@ -185,7 +209,7 @@ Submit(kind) ==
                 [] kind = "exp" -> [kind |-> kind, status |-> "votingx", left |-> ExpBlocks]
                 [] OTHER        -> [kind |-> kind, status |-> "voting",  left |-> VotingBlocks]
   IN /\ props' = Append(props, p) /\ op' = this
-     /\ UNCHANGED <<reg, online, approved, power, totalPower, adds, sets, latest, slashedSet, lastObsSet, batches, slashedBatch, calls, slashedCall>>
+     /\ UNCHANGED <<reg, online, approved, stake, power, totalPower, adds, threshold, sets, latest, slashedSet, lastObsSet, batches, slashedBatch, calls, slashedCall>>
 
 ---------------------------------------------------------------------------
 (* ONE BLOCK ENDS.  s is the record of the variables a block end can change. *)
@@ -233,14 +257,14 @@ EB(s) ==
                  \/ slashed # {}
                  \/ DiffGE(cur, s.sets[s.latest].np)
       create  == need /\ members # {}
-      newset  == [ex |-> TRUE, age |-> 0, conf |-> AllF, elig |-> reg, np |-> cur]
+      newset  == [ex |-> TRUE, age |-> 0, conf |-> AllF, elig |-> reg, mem |-> [o \in Oracle |-> o \in members], np |-> cur]
       sets1   == IF create THEN Append(s.sets, newset) ELSE s.sets
       lat1    == IF create THEN s.latest + 1 ELSE s.latest
       tp2     == IF create THEN OnlineSum(on1, reg, power) ELSE tp1
       \* --- pruning (needs an observed oracle set with a higher nonce), then the next block begins
       pruned(n) == sets1[n].ex /\ sets1[n].age >= W + 1 /\ lastObsSet > n
       sets2   == [n \in Idx(sets1) |->
-                    IF pruned(n) THEN [ex |-> FALSE, age |-> W + 1, conf |-> AllF, elig |-> AllF, np |-> All0]
+                    IF pruned(n) THEN [ex |-> FALSE, age |-> W + 1, conf |-> AllF, elig |-> AllF, mem |-> AllF, np |-> All0]
                     ELSE [sets1[n] EXCEPT !.age = Cap(@ + 1)]]
       older(q) == [n \in Idx(q) |-> [q[n] EXCEPT !.age = Cap(@ + 1)]]
   IN [online |-> on1, totalPower |-> tp2, sets |-> sets2, latest |-> lat1, slashedSet |-> cs1,
@@ -258,7 +282,7 @@ Tick(k) ==
      /\ slashedSet' = t.slashedSet /\ batches' = t.batches /\ slashedBatch' = t.slashedBatch
      /\ calls' = t.calls /\ slashedCall' = t.slashedCall /\ props' = t.props
      /\ op' = this
-     /\ UNCHANGED <<reg, approved, power, adds, lastObsSet>>
+     /\ UNCHANGED <<reg, approved, stake, power, adds, threshold, lastObsSet>>
 
 Probe == op' = Op("Probe", None, None, 0, "ok") /\ UNCHANGED svars
 
@@ -266,6 +290,7 @@ Next ==
   \/ \E o \in Oracle : Bond(o)
   \/ \E o \in Removable : GovRemove(o)
   \/ \E o \in Oracle, a \in AddSizes : AddStake(o, a)
+  \/ \E t \in Thresholds : SetThreshold(t)
   \/ ("batch" \in Kinds /\ CreateBatch)
   \/ ("call" \in Kinds /\ CreateCall)
   \/ \E o \in Oracle, n \in 1..MaxSets : Confirm(o, "set", n)
@@ -315,14 +340,20 @@ A_C07_OnlineChangedOnlyBy ==
   /\ reg' # reg => op'.name = "Bond"
 C07_OnlineChangedOnlyBy == [][A_C07_OnlineChangedOnlyBy]_vars
 
-\* an oracle's power changes only by its own Bond / AddStake (by exactly that amount); AddStake is only accepted
-\* from an online oracle and refreshes the recorded total power
+\* an oracle's stake (hence its power) changes only by its own Bond / AddStake (by exactly that amount, within
+\* the delegate threshold and threshold * multiple); AddStake is only accepted from an online oracle and refreshes
+\* the recorded total power; the delegate threshold changes only by the governance operation
 A_C07_PowerChangedOnlyBy ==
-  /\ power' # power => /\ op'.name \in {"Bond", "AddStake"} /\ op'.res = "ok"
-                        /\ \A o \in Oracle : o # op'.o => power'[o] = power[o]
+  /\ (stake' # stake \/ power' # power) =>
+                        /\ op'.name \in {"Bond", "AddStake"} /\ op'.res = "ok"
+                        /\ \A o \in Oracle : o # op'.o => stake'[o] = stake[o] /\ power'[o] = power[o]
+  /\ (op'.name = "Bond" /\ op'.res = "ok") =>
+        /\ stake'[op'.o] = Stake[op'.o] /\ stake'[op'.o] >= threshold /\ stake'[op'.o] <= threshold * Multiple
   /\ (op'.name = "AddStake" /\ op'.res = "ok") =>
-        /\ online[op'.o] /\ power'[op'.o] = power[op'.o] + op'.n /\ online' = online
+        /\ online[op'.o] /\ stake'[op'.o] = stake[op'.o] + op'.n /\ online' = online
+        /\ stake'[op'.o] >= threshold /\ stake'[op'.o] <= threshold * Multiple
         /\ totalPower' = OnlineSum(online', reg', power')
+  /\ threshold' # threshold => op'.name = "SetThreshold" /\ op'.res = "ok" /\ threshold' = op'.n
 C07_PowerChangedOnlyBy == [][A_C07_PowerChangedOnlyBy]_vars
 
 \* cursors are monotone, move only at a block end, and after one block stand exactly behind the
@@ -340,7 +371,8 @@ A_C07_PowerRefreshed ==
   (TickOk /\ \E o \in Oracle : online[o] /\ ~online'[o]) => totalPower' = OnlineSum(online', reg', power')
 C07_PowerRefreshed == [][A_C07_PowerRefreshed]_vars
 
-\* oracle-set request rule: a new request (height = the ending block, members = the online oracles,
+\* oracle-set request rule: a new request (height = the ending block, members = exactly the online oracles
+\* that have power - an oracle whose stake is below one power unit has no say in the bridge -,
 \* nobody confirmed yet, total power refreshed) iff there are members and (no request in store yet,
 \* or somebody was slashed in this block, or the power moved by >= 10%)
 MembersAfter == {o \in Oracle : reg[o] /\ online'[o] /\ power[o] > 0}
@@ -353,7 +385,8 @@ A_C07_SetRequest ==
     IN IF need /\ MembersAfter # {}
        THEN /\ Len(sets') = Len(sets) + 1 /\ latest' = Len(sets')
             /\ LET x == sets'[Len(sets')]
-               IN x.ex /\ x.age = 1 /\ x.conf = AllF /\ x.elig = reg /\ x.np = NormP(MembersAfter, power)
+               IN /\ x.ex /\ x.age = 1 /\ x.conf = AllF /\ x.elig = reg
+                  /\ x.mem = [o \in Oracle |-> o \in MembersAfter] /\ x.np = NormP(MembersAfter, power)
             /\ totalPower' = OnlineSum(online', reg', power')
        ELSE Len(sets') = Len(sets) /\ latest' = latest
 C07_SetRequest == [][A_C07_SetRequest]_vars
@@ -391,6 +424,11 @@ C07_Sane ==
   /\ latest = Len(sets) /\ slashedSet <= Len(sets) /\ slashedBatch <= Len(batches) /\ slashedCall <= Len(calls)
   /\ lastObsSet <= Len(sets)
   /\ \A o \in Oracle : online[o] => reg[o]
+  /\ threshold > 0
+  /\ \A o \in Oracle : power[o] = stake[o] \div Unit /\ (~reg[o] => stake[o] = 0)
+  \* a stored oracle set is never empty and every member carries weight
+  /\ \A n \in Idx(sets) : sets[n].ex => /\ \E o \in Oracle : sets[n].mem[o]
+                                         /\ \A q \in Oracle : sets[n].mem[q] <=> sets[n].np[q] > 0
   /\ \A n \in Idx(sets) : /\ sets[n].age \in 0..(W + 1)
                           /\ (n > 1 => sets[n].age <= sets[n - 1].age)
                           /\ (n <= slashedSet => sets[n].age > W)
